@@ -11,7 +11,7 @@ from vf.core import Res
 ID = 'C15'
 LEVEL = 'exploration'
 RULE = ('generated world descriptions (0-4 processors of distinct types, 0-6 '
-        'entities with optional ids - strings or ints>=1000 - and 0-4 '
+        'entities with optional ids - strings, ints>=1000, falsy values or the small ints the automatic generator uses - and 0-4 '
         'components of distinct types, recorder classes from the importable '
         'module vf_fixtures incl. the nested vf_fixtures.sub.Klass.Inner); '
         'arguments are arbitrary JSON values (nested lists/dicts, numbers, '
@@ -48,14 +48,17 @@ ASSUMPTIONS = [
     'not generated: strings that begin with a marker but have trailing text; '
     'references resolving to strings that look like markers; two components '
     'of one type in an entity; duplicate entity ids',
-    'explicit ids are strings, ints >= 1000 or ints <= 0 (falsy ones included) so they cannot meet automatic '
-    'ones (collisions are the subject of C01)',
+    'explicit ids are strings, ints >= 1000, ints <= 0 (falsy ones '
+    'included) or the small ints 1-3 that the automatic generator hands to '
+    'the id-less entities of the same description',
 ]
 
 OBJECTS = ['vf_fixtures.OBJ_A', 'vf_fixtures.OBJ_B', 'vf_fixtures.NUMBER',
            'vf_fixtures.TEXT', 'vf_fixtures.sub.OBJ_C',
            'vf_fixtures.sub.Klass.ATTR', 'vf_fixtures.sub.Klass',
-           'vf_fixtures.RC1', 'math.pi', 'os.path.join']
+           'vf_fixtures.RC1', 'math.pi', 'os.path.join',
+           # objects that cannot be (deep-)copied: a module, a lock
+           'vf_fixtures.sub', 'vf_fixtures.LOCK', 'math']
 COMPONENTS = ['vf_fixtures.RC0', 'vf_fixtures.RC1', 'vf_fixtures.RC2',
               'vf_fixtures.RC3', 'vf_fixtures.RC4', 'vf_fixtures.RC5',
               'vf_fixtures.sub.Klass.Inner', 'vf_fixtures.sub.Klass.Plain']
@@ -129,7 +132,7 @@ def gen_one(rng, tier, index):
             ent = {}
             if rng.random() < 0.4:
                 eid = rng.choice(['player', 'e2', 1000, 1001, 2000, 'x y', 0, '',
-                                  -5])
+                                  -5, 1, 2, 3, 1, 2])
                 if eid in used:
                     continue
                 used.add(eid)
